@@ -1,16 +1,16 @@
 """The mechanical rewrite (DESIGN §2.3): the only change to the text of a function under proof.
 
 1. loops named in the unit's loop specs are cut at their invariant:
-      while C: B      ==>   __pyvc_entry(k, locals()); (v1,..,vn) = __pyvc_havoc(k, locals())
-                            for __pyvc_i in (0, 1):
-                                if __pyvc_i == 1: __pyvc_back(k, locals())
+      while C: B      ==>   _pyvc_entry(k, locals()); (v1,..,vn) = _pyvc_havoc(k, locals())
+                            for _pyvc_i in (0, 1):
+                                if _pyvc_i == 1: _pyvc_back(k, locals())
                                 if not C: break
                                 B
-      for x in E: B   ==>   __pyvc_it_k = __pyvc_iter(k, E); then as above with
-                                if not __pyvc_it_k.has_next(): break
-                                x = __pyvc_it_k.next()
+      for x in E: B   ==>   _pyvc_it_k = _pyvc_iter(k, E); then as above with
+                                if not _pyvc_it_k.has_next(): break
+                                x = _pyvc_it_k.next()
    (loops without a spec are left alone and simply run);
-2. len(x) -> __pyvc_len(x), isinstance(x, T) -> __pyvc_isinstance(x, T), int(x)/str(x)/bool(x)/
+2. len(x) -> _pyvc_len(x), isinstance(x, T) -> _pyvc_isinstance(x, T), int(x)/str(x)/bool(x)/
    min/max -> proxy-aware helpers (same result on real values).
 Nothing else is changed; the rewritten function is compiled in the real module's globals and nested
 functions keep their qualified names.  The diff (as a list of rewritten node descriptions) goes into
@@ -27,9 +27,9 @@ from . import core
 from .proxies import Proxy, SInt, SStr, SSeq, SDict, SBool, SReal, Len, cx, _iz
 import z3
 
-ROUTED = {"len": "__pyvc_len", "isinstance": "__pyvc_isinstance", "int": "__pyvc_int",
-          "min": "__pyvc_min", "max": "__pyvc_max", "bool": "__pyvc_bool", "str": "__pyvc_str",
-          "abs": "__pyvc_abs", "bytes": "__pyvc_bytes"}
+ROUTED = {"len": "_pyvc_len", "isinstance": "_pyvc_isinstance", "int": "_pyvc_int",
+          "min": "_pyvc_min", "max": "_pyvc_max", "bool": "_pyvc_bool", "str": "_pyvc_str",
+          "abs": "_pyvc_abs", "bytes": "_pyvc_bytes"}
 
 
 class _Assigned(ast.NodeVisitor):
@@ -97,9 +97,9 @@ class Cutter(ast.NodeTransformer):
             return ast.Call(func=ast.Name(id=fn, ctx=ast.Load()), args=list(args), keywords=[])
         pre = []
         if is_for:
-            itn = "__pyvc_it_%d" % k
+            itn = "_pyvc_it_%d" % k
             pre.append(ast.Assign(targets=[ast.Name(id=itn, ctx=ast.Store())],
-                                  value=call("__pyvc_iter", kc, node.iter)))
+                                  value=call("_pyvc_iter", kc, node.iter)))
             tnames = assigned_names([ast.Expr(value=node.target)]) if False else _target_names(node.target)
             names = [n for n in names if n not in tnames] + tnames
             head = [ast.If(test=ast.UnaryOp(op=ast.Not(), operand=ast.Call(
@@ -110,17 +110,17 @@ class Cutter(ast.NodeTransformer):
                         args=[], keywords=[]))]
         else:
             head = [ast.If(test=ast.UnaryOp(op=ast.Not(), operand=node.test), body=[ast.Break()], orelse=[])]
-        pre.append(ast.Expr(value=call("__pyvc_entry", kc, L)))
+        pre.append(ast.Expr(value=call("_pyvc_entry", kc, L)))
         if names:
             tgt = ast.Tuple(elts=[ast.Name(id=n, ctx=ast.Store()) for n in names], ctx=ast.Store())
             pre.append(ast.Assign(targets=[tgt], value=call(
-                "__pyvc_havoc", kc, L, ast.Constant(value=tuple(names)))))
+                "_pyvc_havoc", kc, L, ast.Constant(value=tuple(names)))))
         else:
-            pre.append(ast.Expr(value=call("__pyvc_havoc", kc, L, ast.Constant(value=()))))
-        back = ast.If(test=ast.Compare(left=ast.Name(id="__pyvc_i", ctx=ast.Load()), ops=[ast.Eq()],
+            pre.append(ast.Expr(value=call("_pyvc_havoc", kc, L, ast.Constant(value=()))))
+        back = ast.If(test=ast.Compare(left=ast.Name(id="_pyvc_i", ctx=ast.Load()), ops=[ast.Eq()],
                                        comparators=[ast.Constant(value=1)]),
-                      body=[ast.Expr(value=call("__pyvc_back", kc, L))], orelse=[])
-        new = ast.For(target=ast.Name(id="__pyvc_i", ctx=ast.Store()),
+                      body=[ast.Expr(value=call("_pyvc_back", kc, L))], orelse=[])
+        new = ast.For(target=ast.Name(id="_pyvc_i", ctx=ast.Store()),
                       iter=ast.Tuple(elts=[ast.Constant(value=0), ast.Constant(value=1)], ctx=ast.Load()),
                       body=[back] + head + body, orelse=[], type_comment=None)
         self.log.append("line %d: %s loop #%d cut at its invariant (havoc: %s)" % (
@@ -221,7 +221,7 @@ def _fresh_like(c, name, v):
 
 
 def make_hooks(c, unit_name, loops, old):
-    """Return the __pyvc_* helper functions bound to context c."""
+    """Return the _pyvc_* helper functions bound to context c."""
     def entry(k, L):
         spec = loops[k]
         c.oblige("loop%d/entry" % k, spec.inv(c, L, old), kind="loop-entry")
@@ -242,7 +242,7 @@ def make_hooks(c, unit_name, loops, old):
                 v = UNBOUND
             out.append(v)
             L2[n] = v
-        itn = "__pyvc_it_%d" % k
+        itn = "_pyvc_it_%d" % k
         if itn in L and isinstance(L[itn], SeqCursor):
             L[itn].idx = z3.Int(c.fresh_name("h_it%d" % k))
             c.assume_z3(z3.And(L[itn].idx >= 0, L[itn].lo + L[itn].idx <= L[itn].hi))
@@ -259,7 +259,7 @@ def make_hooks(c, unit_name, loops, old):
             return SeqCursor(e, z3.IntVal(0))
         return ListCursor(e)
 
-    return {"__pyvc_entry": entry, "__pyvc_havoc": havoc, "__pyvc_back": back, "__pyvc_iter": it}
+    return {"_pyvc_entry": entry, "_pyvc_havoc": havoc, "_pyvc_back": back, "_pyvc_iter": it}
 
 
 def p_len(x):
@@ -351,9 +351,9 @@ def p_bytes(x=b"", *a):
     return bytes(x, *a)
 
 
-HELPERS = {"__pyvc_len": p_len, "__pyvc_isinstance": p_isinstance, "__pyvc_int": p_int,
-           "__pyvc_min": p_min, "__pyvc_max": p_max, "__pyvc_bool": p_bool, "__pyvc_str": p_str,
-           "__pyvc_abs": p_abs, "__pyvc_bytes": p_bytes}
+HELPERS = {"_pyvc_len": p_len, "_pyvc_isinstance": p_isinstance, "_pyvc_int": p_int,
+           "_pyvc_min": p_min, "_pyvc_max": p_max, "_pyvc_bool": p_bool, "_pyvc_str": p_str,
+           "_pyvc_abs": p_abs, "_pyvc_bytes": p_bytes}
 
 
 def get_function(module, qualname):
@@ -372,8 +372,10 @@ def get_function(module, qualname):
 
 def rewrite_function(fn, cut_loops=(), extra_globals=None, route=True):
     """Return (new_function, log).  new_function has the same closure cells/defaults as fn."""
+    fn = getattr(fn, "__pyvc_original__", fn)
     src = textwrap.dedent(inspect.getsource(fn))
     tree = ast.parse(src)
+    ast.increment_lineno(tree, fn.__code__.co_firstlineno - 1)
     fdef = tree.body[0]
     fdef.decorator_list = []
     cutter = Cutter(cut_loops, route)
@@ -384,36 +386,39 @@ def rewrite_function(fn, cut_loops=(), extra_globals=None, route=True):
         raise core.Unsupported("loop spec for loop(s) %s but function %s has %d loops" % (
             sorted(missing), fn.__qualname__, cutter.k + 1))
     ast.fix_missing_locations(tree)
-    freevars = fn.__code__.co_freevars
-    g = dict(fn.__globals__) if False else fn.__globals__
-    if freevars:
-        # wrap in a factory so the compiler creates cells for the free variables
-        factory = ast.FunctionDef(
-            name="__pyvc_factory", args=ast.arguments(posonlyargs=[], args=[ast.arg(arg=v) for v in freevars],
-                                                      kwonlyargs=[], kw_defaults=[], defaults=[]),
-            body=[fdef, ast.Return(value=ast.Name(id=fdef.name, ctx=ast.Load()))], decorator_list=[],
-            type_params=[])
-        mod = ast.Module(body=[factory], type_ignores=[])
-        ast.fix_missing_locations(mod)
-        ns = {}
-        code = compile(mod, inspect.getsourcefile(fn) or "<pyvc>", "exec")
-        exec(code, g, ns)
-        cells = [c.cell_contents for c in fn.__closure__]
-        new = ns["__pyvc_factory"](*cells)
-        # rebind to the *same* cells so that captured-variable updates are shared
-        new = types.FunctionType(new.__code__, g, fn.__name__, fn.__defaults__,
-                                 tuple(_reorder_cells(new, fn)))
+    freevars = tuple(v for v in fn.__code__.co_freevars if v != "__class__")
+    g = fn.__globals__
+    parts = fn.__qualname__.split(".")
+    clsname = parts[-2] if len(parts) >= 2 and parts[-2] != "<locals>" else None
+    inner = fdef
+    if clsname:
+        # compile inside a class body of the same name so that __private names are mangled and
+        # zero-argument super() gets its __class__ cell (re-bound to the original cell below)
+        inner = ast.ClassDef(name=clsname, bases=[], keywords=[], body=[fdef], decorator_list=[], type_params=[])
+    ret = ast.Name(id=fdef.name, ctx=ast.Load()) if not clsname else ast.Subscript(
+        value=ast.Attribute(value=ast.Name(id=clsname, ctx=ast.Load()), attr="__dict__", ctx=ast.Load()),
+        slice=ast.Constant(value=fdef.name), ctx=ast.Load())
+    factory = ast.FunctionDef(
+        name="_pyvc_factory", args=ast.arguments(posonlyargs=[], args=[ast.arg(arg=v) for v in freevars],
+                                                  kwonlyargs=[], kw_defaults=[], defaults=[]),
+        body=[inner, ast.Return(value=ret)], decorator_list=[], type_params=[])
+    mod = ast.Module(body=[factory], type_ignores=[])
+    ast.fix_missing_locations(mod)
+    ns = {}
+    code = compile(mod, inspect.getsourcefile(fn) or "<pyvc>", "exec")
+    exec(code, g, ns)
+    tmp = ns["_pyvc_factory"](*[None] * len(freevars))
+    if isinstance(tmp, (staticmethod, classmethod)):
+        tmp = tmp.__func__
+    if tmp.__code__.co_freevars:
+        old = dict(zip(fn.__code__.co_freevars, fn.__closure__ or ()))
+        cells = tuple(old[v] for v in tmp.__code__.co_freevars)
     else:
-        mod = ast.Module(body=[fdef], type_ignores=[])
-        ast.fix_missing_locations(mod)
-        ns = {}
-        code = compile(mod, inspect.getsourcefile(fn) or "<pyvc>", "exec")
-        exec(code, g, ns)
-        new = ns[fdef.name]
-        new = types.FunctionType(new.__code__, g, fn.__name__, fn.__defaults__, None)
+        cells = None
+    new = types.FunctionType(tmp.__code__, g, fn.__name__, fn.__defaults__, cells)
     new.__kwdefaults__ = fn.__kwdefaults__
     new.__qualname__ = fn.__qualname__
-    new.__pyvc_original__ = fn
+    new._pyvc_original__ = fn
     return new, cutter.log
 
 
@@ -461,3 +466,50 @@ def instantiate_closure(fn, name, cellvalues, cut_loops=(), route=True):
 
 def want_name(name):
     return name.partition("#")[0]
+
+
+# ------------------------------------------------------------------ module-wide routing
+_ROUTED_CACHE = {}
+
+
+def route_module(mod):
+    """Replace every plain function / method defined in `mod` by its routed version (len() ->
+    _pyvc_len(), isinstance -> ..., no loop cuts).  On real values the helpers return what the
+    builtins return, so behaviour is unchanged; on proxies the callees of the function under contract
+    (helpers that are simply inlined) keep working.  Returns an undo list."""
+    undo = []
+    mod.__dict__.update(HELPERS)
+    for name, obj in list(vars(mod).items()):
+        if inspect.isfunction(obj) and obj.__module__ == mod.__name__:
+            new = _routed(obj)
+            if new is not None:
+                undo.append((mod, name, obj))
+                setattr(mod, name, new)
+        elif inspect.isclass(obj) and obj.__module__ == mod.__name__:
+            for an, av in list(vars(obj).items()):
+                if inspect.isfunction(av):
+                    new = _routed(av)
+                    if new is not None:
+                        undo.append((obj, an, av))
+                        setattr(obj, an, new)
+    return undo
+
+
+def unroute(undo):
+    for owner, name, orig in reversed(undo):
+        setattr(owner, name, orig)
+
+
+def _routed(fn):
+    key = fn.__code__
+    if key in _ROUTED_CACHE:
+        return _ROUTED_CACHE[key]
+    new = None
+    try:
+        src = inspect.getsource(fn)
+        if any(("%s(" % b) in src for b in ROUTED):
+            new, _ = rewrite_function(fn, (), route=True)
+    except (OSError, TypeError, SyntaxError, core.Unsupported, IndentationError):
+        new = None
+    _ROUTED_CACHE[key] = new
+    return new
